@@ -111,7 +111,8 @@ def run(spec):
     proc = ScriptedProcess(spec["paths"], df=spec["df"], dimension=1)
     eng = Engine(ConfigurationStandard(mc_paths=n, nb_of_processes=1, seed=7, control_variates=cv), proc)
     product = make_product(notional=spec["notional"], dimension=d, fun=fun)
-    with np.errstate(all="ignore"), warnings.catch_warnings():
+    from mcscript import WarningCatcher
+    with WarningCatcher(), np.errstate(all="ignore"), warnings.catch_warnings():
         warnings.simplefilter("ignore")
         st = eng.price(product)
         obs = {"calls": proc.calls, "rows": np.array(st._payoff_statistics.stats),
